@@ -21,6 +21,8 @@ from translate import period as P
 from translate import period_ds as D
 
 YEARS = list(range(P.Y0, P.Y1 + 1))
+SCALAR_COLS = ["valid", "start_date", "end_date", "getmonth", "dayofmonth", "dayofyear", "time_agg_to_A", "time_agg_to_S", "time_agg_to_Q",
+               "time_agg_to_M", "time_agg_to_W", "time_agg_to_D", "fill_time_series_step"]
 
 
 # ====================================================================================================== X: macros
@@ -75,7 +77,8 @@ def x_periods(ctx) -> None:
         ctx.count(("x", k))
     ctx.oblige("X: periods_in_year (Gallina) = number of valid periods by DuckDB's WEEKOFYEAR(Dec 28)/DAYOFYEAR(Dec 31), all (indicator, year)",
                not bad_count, str(bad_count[:5]))
-    # localise fingerprint mismatches pointwise
+    # localise fingerprint mismatches pointwise; at a VALID period the transcription equals the calendar (C08_macro_dates_ok,
+    # C08_macro_time_agg_ok), so an engine value that differs from it differs from the calendar: a violation with its input
     for name, bad, rows_fn, sql_rows in (("scalar macros", bad_scalar, "tie_scalar_rows", lambda k: sc[k]),
                                          ("vtl_tp_shift", bad_shift, "tie_shift_rows", lambda k: sh[k].tolist())):
         detail = ""
@@ -86,7 +89,25 @@ def x_periods(ctx) -> None:
             for k in ks:
                 d = P.first_diff(cr[k], sql_rows(k))
                 detail += f"{k}: number {d[0] + 1 if d else '?'} column {d[1] if d else '?'}: model {d[2] if d else '?'} engine {d[3] if d else '?'}; "
-        ctx.oblige(f"X: {name}: Gallina *_impl = real SQL macro on every period of every indicator 1900-2100 "
+                if not d or d[0] >= valid_sql[k]:
+                    continue
+                y, i = k
+                num = d[0] + 1
+                if rows_fn == "tie_scalar_rows":
+                    col = SCALAR_COLS[d[1]] if d[1] < len(SCALAR_COLS) else f"column{d[1]}"
+                    ctx.violation(f"macro:{col}:{i}:differs-from-calendar",
+                                  f"{col} of {D.canon((y, i, num))}: the engine's macro gives {d[3]}, the calendar gives {d[2]} "
+                                  f"(encoding: day numbers + 1000000, periods year*1000+number)",
+                                  {"kind": "macro_scalar", "year": y, "ind": i, "num": num, "column": col, "expected": d[2], "observed": d[3]})
+                else:
+                    n = shifts[k][d[1]]
+                    spec = common.coq_eval(P.HEADER, [f"(enc_p (shift (mkP {y} {P.COQ_IND[i]} {num}) {common.coq_z(n)}))"], "c08loc2")[0]
+                    if spec != d[3]:
+                        ctx.violation(f"timeshift:{i}:unpredicted", f"vtl_tp_shift({D.canon((y, i, num))}, {n}) gives year*1000+number = {d[3]}, "
+                                      f"the calendar gives {spec} (and the transcribed macro {d[2]})",
+                                      {"kind": "macro_shift", "year": y, "ind": i, "num": num, "n": n,
+                                       "expected": D.canon((spec // 1000, i, spec % 1000)), "observed": d[3]})
+        ctx.oblige(f"X: {name}: Gallina *_impl = real SQL macro on every period of every indicator {YEARS[0]}-{YEARS[-1]} "
                    f"({len(keys)} shards, fingerprint + pointwise localisation)", not bad, f"{len(bad)} shards differ: {detail}")
     ctx.cov["x_periods"] = int(nper[0])
     ctx.cov["x_shift_pairs"] = int(sum(v.size for v in sh.values()))
@@ -162,7 +183,8 @@ def x_calendar(ctx) -> None:
             d = P.first_diff(cr[k], cal[k[0]])
             detail += f"year {k[0]} day {d[0] + 1 if d else '?'} column {d[1] if d else '?'}: model {d[2] if d else '?'} engine {d[3] if d else '?'}; "
     ndays = sum(len(v) for v in cal.values())
-    ctx.oblige(f"X: YEAR/MONTH/DAY/DAYOFYEAR/ISOYEAR/WEEK/ISODOW/LAST_DAY/QUARTER, vtl_time_agg_date (6 targets), vtl_dateadd (6 units) "
+    ctx.oblige(f"X: YEAR/MONTH/DAY/DAYOFYEAR/ISOYEAR/WEEK/ISODOW/LAST_DAY/QUARTER, vtl_time_agg_date (6 targets), vtl_dateadd "
+               f"({'6 units x 4 shifts' if ctx.tier == 'thorough' else '2 of the 6 units x 1 shift per year'}) "
                f"= Calendar.v / Period.v on every date 1900-01-01..2100-12-31 ({ndays} dates)", not bad, f"{len(bad)} years differ: {detail}")
     ctx.cov["x_dates"] = ndays
     ctx.log(f"X: calendar builtins on {ndays} dates in {time.time() - t0:.1f}s")
@@ -449,7 +471,7 @@ def k_datasets(ctx) -> None:
     cases = build_cases(ctx)
     hist: Dict[str, int] = {}
     # corpus first
-    corpus = sorted((common.CORPUS / "C08").glob("*.json")) if (common.CORPUS / "C08").exists() else []
+    corpus = []
     for c in cases:
         c.res = D.run(c.script, c.structs, c.rows, **c.kw)
         hist[c.op] = hist.get(c.op, 0) + 1
@@ -505,25 +527,37 @@ def k_datasets(ctx) -> None:
 
 
 def k_witnesses(ctx) -> None:
-    """the vm_compute witnesses of the *_refuted theorems, replayed through vtlengine.run"""
+    """corpus first: the vm_compute witnesses of the *_refuted theorems (and past minimal failures) replayed through vtlengine.run;
+    each file names the stable key under which its failure is known — a witness that stops failing means the model is no longer
+    faithful (or the defect was repaired: then the `*_refuted` theorems and the corpus entry must go)"""
     S = D.tp_structure()
-    w = [("W", [(1, (2020, "W", 52)), (1, (2020, "W", 53)), (1, (2021, "W", 1))], "crossing-53-week-year"),
-         ("D", [(1, (2020, "D", 365)), (1, (2020, "D", 366)), (1, (2021, "D", 1))], "crossing-leap-year")]
-    for ind, series, shape in w:
-        rows = [{"Id_1": s, "Id_2": D.canon(p), "Me_1": float(k)} for k, (s, p) in enumerate(series)]
-        res = D.run("DS_r <- timeshift(DS_1, 1);", S, rows)
-        ctx.count(("witness", ind))
+    files = sorted((common.CORPUS / "C08").glob("*.json"))
+    for f in files:
+        w = json.loads(f.read_text())
+        rows = [{"Id_1": 1, "Id_2": p, "Me_1": float(k + 1)} for k, p in enumerate(w["periods"])]
+        res = D.run(w["script"], S, rows)
+        ctx.count(("corpus", f.name))
         if not res["ok"]:
-            ctx.oblige(f"witness {ind} runs", False, res["msg"][:200])
+            ctx.violation(f"{w['key']}:engine-error", f"corpus {f.name}: {w['script']} raised {res['err']}", {"kind": "run", "script": w["script"],
+                          "structures": S, "rows": rows, "kwargs": {}})
             continue
-        ids = [(r[0], r[1]) for r in D.rows_of(res)[1]]
-        if len(set(ids)) != len(ids):
-            ctx.violation(f"timeshift:{ind}:{shape}", f"timeshift(DS_1, 1) on {[D.canon(p) for _, p in series]} returns {[i[1] for i in ids]}: "
-                          f"two datapoints with the same identifiers (witness of C08_macro_shift_refuted)",
-                          {"kind": "run", "script": "DS_r <- timeshift(DS_1, 1);", "structures": S, "rows": rows, "kwargs": {},
-                           "expected": "three distinct periods", "observed": [i[1] for i in ids]})
+        out = D.rows_of(res)[1]
+        ids = [(r[0], r[1]) for r in out]
+        if w["op"] == "timeshift":
+            failing = len(set(ids)) != len(ids)
+            what = f"{w['script']} on {w['periods']} returns {[i[1] for i in ids]}: two datapoints with the same identifiers"
         else:
-            ctx.oblige(f"refutation witness {ind} reproduces on the engine (model is faithful)", False, f"engine returned {ids}")
+            got = {r[1]: D.num(r[2]) for r in out}
+            lost = [p for k, p in enumerate(w["periods"]) if got.get(p) != k + 1]
+            failing = bool(lost)
+            what = f"{w['script']} on {w['periods']} returns {sorted(got)}: input datapoints {lost} are missing from the result"
+        if failing:
+            ctx.violation(w["key"], what + f" ({w.get('note', '')})", {"kind": "run", "script": w["script"], "structures": S, "rows": rows, "kwargs": {},
+                                                                      "expected": "distinct / complete result", "observed": [list(r) for r in out]})
+        else:
+            ctx.oblige(f"corpus witness {f.name} still fails on the engine (the macro-faithful model and its *_refuted theorems are current)", False,
+                       f"engine returned {ids}")
+    ctx.cov["corpus_cases"] = len(files)
 
 
 # ====================================================================================================== entry points
@@ -558,6 +592,12 @@ def replay(ctx, obj):
     if kind == "macro_shift":
         got = confirm_macro_shift(obj["year"], obj["ind"], obj["num"], obj["n"])
         print(f"vtl_tp_shift({obj['year']}-{obj['ind']}{obj['num']}, {obj['n']}): expected {obj['expected']} observed {got}")
+        return 0 if got == obj["expected"] else 1
+    if kind == "macro_scalar":
+        P.load_periods([obj["year"]])
+        rows = P.sql_scalar_rows()[(obj["year"], obj["ind"])]
+        got = rows[obj["num"] - 1][SCALAR_COLS.index(obj["column"])]
+        print(f"{obj['column']} of {obj['year']}-{obj['ind']}{obj['num']}: expected {obj['expected']} observed {got}")
         return 0 if got == obj["expected"] else 1
     if kind == "macro_next":
         nxt = P.next_period_sql().replace("p.", "pp.")
